@@ -27,3 +27,12 @@ package xrespondent
 //@   at select#1 assert selidx == 0 ==> hops >= 2 && hops-1 <= ttl && 4*(hops-1) <= len(body0) && body0[4*(hops-2)] >= 128 && forall(j, 0, hops-2, body0[4*j] < 128)
 //@   at call:Free#2 assert forall(j, 0, hops-1, body0[4*j] < 128) && hops-1 >= ttl
 //@   at call:Free#3 assert forall(j, 0, hops-2, body0[4*j] < 128) && len(body0) < 4*(hops-1)
+//@
+//@ func (*socket).SendMsg
+//@   at call:Free#1 assert len(old(m.Header)) < 4
+//@   at call:Free#2 assert len(old(m.Header)) >= 4 && !has(s.pipes, be32(old(m.Header)))
+//@   before select#1 assert len(old(m.Header)) >= 4 && has(s.pipes, be32(old(m.Header))) && p == s.pipes[be32(old(m.Header))] && m.Header == old(m.Header)[4:]
+//@   ensures result == protocol.ErrSendTimeout ==> m.Header == old(m.Header)
+//@
+//@ func (*pipe).sender
+//@   before call:SendMsg#1 assert m == at("select#1", m)
